@@ -68,7 +68,9 @@ def main():
         "setup_cmd": "./setup.sh",
         "hooks": {
             "guard": "ROBOTOOLS_VERIF",
-            "enable": "no source hooks: the harness observes robotools through its public API (PYTHONPATH=/repo, VERIF_REPO overrides the tree)",
+            "enable": "no source hooks in /repo: the harness observes robotools through its public API (sys.path = /repo, VERIF_REPO overrides the tree). "
+                      "The only instrumentation lives in /verif: harness/rtverif/suite_plugin.py, a pytest plugin loaded with -p into a run of the repository's own "
+                      "suite; it patches robotools classes in that test process only when ROBOTOOLS_VERIF=1 (and ROBOTOOLS_VERIF_TRACE_FILE) is set.",
             "baseline_off_cmd": "cd /repo && /venv/bin/python -m pytest -ra -q -p no:cacheprovider --timeout=900 --continue-on-collection-errors",
             "source_commits": [],
             "add_only": True,
